@@ -118,6 +118,18 @@ def atoms_for(spec, kind):
                     for k in range(len(b["i"]) + 1):
                         out.append({"op": "ins", "b": b["n"], "k": k, "p": [["raw", '.string "ab"']]})
                         out.append({"op": "ins", "b": b["n"], "k": k, "p": [["raw", ".byte 7"]]})
+        # patches that bring contents for another section (existing .data / a brand-new section), with a
+        # label the patch itself refers to
+        sect_patches = [
+            [["p", 0], ["raw", "leaq .Lnewdata(%rip), %rax"], ["raw", ".data"], ["raw", ".Lnewdata:"], ["raw", ".byte 1, 2"], ["raw", ".text"]],
+            [["p", 0], ["raw", '.section .mysec,"a",@progbits' if spec["target"].endswith("elf") else ".data"], ["raw", ".Lgnew:"], ["raw", ".quad A"], ["raw", ".text"], ["p", 0]],
+        ]
+        for s_ in spec["sections"]:
+            for b in s_["blocks"]:
+                if b["k"] == "c":
+                    for sp_ in sect_patches:
+                        out.append({"op": "ins", "b": b["n"], "k": 0, "p": sp_})
+                    out.append({"op": "ins", "b": b["n"], "k": len(b["i"]), "p": sect_patches[0]})
         # delete_function-style removal of every function
         for f in sorted({b.get("f") for s_ in spec["sections"] for b in s_["blocks"] if b.get("f")}):
             pass
@@ -203,8 +215,13 @@ def run_once(spec, mods, fault=None):
                 if e not in w.ir.cfg:
                     diffs.append(C.D("after-fault-edge-not-in-ir-cfg", r_fault=fault[1]))
     v = validate.validate(w.ir, w.m, original_blocks=original_blocks, had_zero_sized=False, roundtrip=True)
+    after = "fault" if (fault is not None and fired) else ("exception" if exc is not None else "success")
     for d in v:
-        d["r_after"] = "fault" if (fault is not None and fired) else ("exception" if exc is not None else "success")
+        d["r_after"] = after
+    if after != "success":
+        # "every block has an address" is promised for a returning apply() only; after a failure the
+        # statement asks for closure, serializability, ir.cfg and referents
+        v = [d for d in v if d["kind"] != "block-without-address"]
     diffs.extend(v)
     return diffs, outcome
 
